@@ -54,7 +54,7 @@ GATE_TIMEOUT_S = float(os.environ.get("VERIF_C05_GATE_TIMEOUT", "60"))
 SOLVER_TIMEOUT = "3000ms"  # only for scenarios that contain a `timeout` reply (sequential schedules)
 
 VIOL = ("panic", "failflag")
-UNSAT_KINDS = ("unsat", "unsat_rc1", "unsat_shared")
+UNSAT_KINDS = ("unsat", "unsat_rc1", "unsat_shared", "unsat_nocore")
 CLASS_OF = {0: "PASS", 1: "FAIL", 2: "TIMEOUT", 3: "ERROR", 4: "ERROR", 5: "ERROR"}
 
 
@@ -248,6 +248,8 @@ def verdict_stub_script(scns: list, work: Path, tagdir: str, bid=0, free_seed: i
                     rep = {"kind": kind, "hold": False, "delay_ms": rnd.choice([0, 0, 15, 40, 90])}
                 if kind == "unsat_shared":
                     rep.update(kind="unsat", core="shared", shared_n=1)
+                if kind == "unsat_nocore":
+                    rep.update(kind="unsat", core="empty")
                 if kind == "spawnfail":
                     rep["kind"] = "garbage"  # never reached: Popen raises for this query
                     spawnfail.add(f"{fn}/{base}")
